@@ -141,12 +141,6 @@ Ip::Address::applyMask(const unsigned int cidrMask, int mtype)
     if (cidrMask > 32 && mtype == AF_INET)
         return false;
 
-    if (cidrMask == 0) {
-        /* CIDR /0 is NoAddr regardless of the IPv4/IPv6 protocol */
-        setNoAddr();
-        return true;
-    }
-
     clearbits = (uint8_t)( (mtype==AF_INET6?128:32) - cidrMask);
 
     // short-cut
